@@ -211,7 +211,7 @@ fn ovh_of(table: &Value, name: &str) -> Option<usize> {
     table.as_array()?.iter().find(|r| r["e"] == name).and_then(|r| r["ovh"].as_u64()).map(|x| x as usize)
 }
 
-const ALLOC_SLACK: usize = 64 * 1024;
+const ALLOC_SLACK: usize = 4 * 1024 * 1024; // "absurd" starts well above any scratch buffer a reasonable implementation might use
 
 /// one call, classified: Ok / Err / Panic / HugeAlloc
 fn classify(run: Run, c: &UCtx, x: &[u8], budget: usize) -> (&'static str, String) {
